@@ -70,7 +70,8 @@ Print Assumptions C08_pipeline_accepts.
 Theorem C08_reader_decodes_writer :
   forall (deflate : N -> bytes -> bytes) (inflate : bytes -> option bytes),
   (forall l x, inflate (deflate l x) = Some x) ->
-  forall fs x y, pipeline_apply deflate fs x = Ok y -> reader_apply inflate (descr fs) y = Ok x.
+  forall fs x y, stages_small deflate fs x ->     (* every deflate stage input is at most utils.MaxChunkSize = 1 GiB *)
+  pipeline_apply deflate fs x = Ok y -> reader_apply inflate (descr fs) y = Ok x.
 Proof. exact reader_decodes_writer. Qed.
 Print Assumptions C08_reader_decodes_writer.
 
@@ -92,12 +93,12 @@ Proof. exact pipeline_detects. Qed.
 Print Assumptions C08_pipeline_detects.
 
 (* The same statement for Fletcher-32 NOT outermost is false (finding C08-fletcher-not-outermost-lzf):
-   pipeline [fletcher32; lzf], 40 zero bytes, stored byte 5 changed from 33 to 29: both decoders return
+   pipeline [fletcher32; lzf], 40 zero bytes, stored byte 4 (the length byte) changed from 33 to 29: both decoders return
    36 zero bytes and no error. *)
 Theorem C08_fletcher_inner_refuted :
   pipeline_apply (fun _ x => x) refuted_fs refuted_x = Ok refuted_stored /\
-  nth 5 refuted_stored 0 = 33 /\
-  pipeline_remove (fun x => Some x) refuted_fs (upd 5 29 refuted_stored) = Ok (repeat 0 36) /\
-  reader_apply (fun x => Some x) (descr refuted_fs) (upd 5 29 refuted_stored) = Ok (repeat 0 36).
+  nth 4 refuted_stored 0 = 33 /\
+  pipeline_remove (fun x => Some x) refuted_fs (upd 4 29 refuted_stored) = Ok (repeat 0 36) /\
+  reader_apply (fun x => Some x) (descr refuted_fs) (upd 4 29 refuted_stored) = Ok (repeat 0 36).
 Proof. exact fletcher_inner_refuted. Qed.
 Print Assumptions C08_fletcher_inner_refuted.
